@@ -15,6 +15,18 @@ namespace HV
         double backward(double, double, double gradT) const { return gradT * a; }
     };
 
+    // T = b / (1 - a*tau) for a*tau < 1 ; dT/dtau = a*T*T/b : a map whose `backward` needs the decoded duration `T`
+    // (the reason the protocol passes it).  default-constructed instance: a = 1/4, b = 1/2
+    struct RecipTimeMap
+    {
+        double a = 0.25, b = 0.5;
+        RecipTimeMap() = default;
+        RecipTimeMap(double a_, double b_) : a(a_), b(b_) {}
+        double toTime(double tau) const { return b / (1.0 - a * tau); }
+        double toTau(double T) const { return (1.0 - b / T) / a; }
+        double backward(double, double T, double gradT) const { return gradT * a * T * T / b; }
+    };
+
     // points with index % 2 != parity are unconstrained (dof = DIM); the others live on the paraboloid
     // p_{DIM-1} = c * sum_{k<DIM-1} xi_k^2 + e, c = (index+1)/4, e = index/2 (dof = DIM-1)
     template <int DIM>
